@@ -260,11 +260,20 @@ def run_harness(binary: Path, requests, timeout=900, env=None, chunk=None):
     if env:
         e.update(env)
 
+    # address-space cap: a request that makes the implementation ask for absurd amounts of memory must kill the harness
+    # process (reported as a crash), not the sandbox.  Not under the race detector, which reserves terabytes of address space.
+    limit_as = None if (env and "GORACE" in env) else 16 * 2**30
+
+    def preexec():
+        if limit_as:
+            import resource
+            resource.setrlimit(resource.RLIMIT_AS, (limit_as, limit_as))
+
     def one(reqs):
         data = "\n".join(json.dumps(r) for r in reqs) + "\n"
         try:
             p = subprocess.run([str(binary)], input=data, stdout=subprocess.PIPE, stderr=subprocess.PIPE,
-                               text=True, timeout=timeout, env=e)
+                               text=True, timeout=timeout, env=e, preexec_fn=preexec)
             out = p.stdout
             rc = p.returncode
             err = p.stderr
